@@ -234,6 +234,7 @@ func valText(e ast.Expr) string {
 
 func main() {
 	repo, out := os.Args[1], os.Args[2]
+	emitEnums(repo, out) // enums.go: constants of the enum types by name, texts of String()
 	var methods []method
 	wrappers := map[string]*wrapper{}
 	crcOf := map[string]string{} // Go type name -> literal returned by its CRC() method
